@@ -358,6 +358,7 @@ type codecWorld struct {
 	cids     map[int][]string // identifiers written per case (cross-process check)
 	cur      int
 	idents   []*idp.Identity
+	keyIO    *cbor.IOCbor
 }
 
 func (w *codecWorld) note(c cid.Cid) { w.cids[w.cur] = append(w.cids[w.cur], c.String()) }
@@ -1168,11 +1169,25 @@ func (w *codecWorld) genStructured(r *rand.Rand, pool *cidPool) ([]byte, []strin
 			c.b = append(c.b, f.v...)
 		}
 	})
-	if r.Intn(6) == 0 {
-		add("enc_links", func(c *cw) { c.text(string(randBytes(r, r.Intn(6)))) })
+	encText := func() string {
+		switch r.Intn(4) {
+		case 0:
+			return string(randBytes(r, r.Intn(6))) // mostly not base64
+		case 1:
+			return "AAAA"
+		default: // valid base64 of every interesting length (secretbox nonce = 24, overhead = 16)
+			n := []int{0, 1, 15, 16, 17, 23, 24, 25, 32, 48, 64}[r.Intn(11)]
+			return base64.StdEncoding.EncodeToString(randBytes(r, n))
+		}
 	}
-	if r.Intn(6) == 0 {
-		add("enc_links_nonce", func(c *cw) { c.text("AAAA") })
+	if r.Intn(3) == 0 {
+		kinds = append(kinds, "enc")
+		add("enc_links", func(c *cw) { c.text(encText()) })
+		if r.Intn(4) != 0 {
+			add("enc_links_nonce", func(c *cw) { c.text(encText()) })
+		}
+	} else if r.Intn(8) == 0 {
+		add("enc_links_nonce", func(c *cw) { c.text(encText()) })
 	}
 	if dmg(r) && r.Intn(3) == 0 {
 		kinds = append(kinds, "extra")
@@ -1333,6 +1348,32 @@ func (w *codecWorld) decodeOne(kind string, raw []byte, api *mockstore.API, othe
 		}
 		fmt.Fprintf(w.out, "A %s\n", res)
 	}
+	// the same untrusted block read by a reader that has a link key configured
+	func() {
+		res := "ok"
+		defer func() {
+			if rec := recover(); rec != nil {
+				res = "PANIC"
+				w.st.Panics++
+			}
+			fmt.Fprintf(w.out, "DK %s\n", res)
+		}()
+		if _, err := w.ioKey().DecodeRawEntry(node, c, prov); err != nil {
+			res = "err"
+		}
+	}()
+}
+
+// ioKey is a reader with a fixed link key (for decoding untrusted blocks).
+func (w *codecWorld) ioKey() *cbor.IOCbor {
+	if w.keyIO == nil {
+		k, err := enc.NewSecretbox(make([]byte, 32))
+		if err != nil {
+			panic(err)
+		}
+		w.keyIO = w.io0.ApplyOptions(&cbor.Options{LinkKey: k})
+	}
+	return w.keyIO
 }
 
 func (w *codecWorld) runMalformed(h int, r *rand.Rand) {
